@@ -917,6 +917,10 @@ func runJob(st *wstate, jobID string, from int, single bool, text string) {
 		runRuns(st, jobID, from, single, text)
 		return
 	}
+	if strings.HasPrefix(text, "near ") {
+		runNear(st, jobID, from, single, text)
+		return
+	}
 	if !strings.HasPrefix(text, "batch ") {
 		c, err := parseCase(text)
 		if err != nil {
@@ -1024,6 +1028,10 @@ func runAllFmt(st *wstate, jobID string, from int, single bool, text string) {
 
 func leafFields(base []byte, g *decode.Group, max int) (fs [][2]int64) {
 	defer func() { _ = recover() }()
+	return leafRanges(base, g, max, 64)
+}
+
+func leafRanges(base []byte, g *decode.Group, max int, maxLen int64) (fs [][2]int64) {
 	dv, _, _ := decode.Decode(context.Background(), bitio.NewBitReader(base, -1), g, decode.Options{IsRoot: true})
 	if dv == nil {
 		return nil
@@ -1034,7 +1042,7 @@ func leafFields(base []byte, g *decode.Group, max int) (fs [][2]int64) {
 			return nil
 		}
 		r := [2]int64{v.Range.Start, v.Range.Len}
-		if r[1] < 1 || r[1] > 64 || r[0] < 0 || r[0]+r[1] > int64(len(base))*8 || seen[r] {
+		if r[1] < 1 || r[1] > maxLen || r[0] < 0 || r[0]+r[1] > int64(len(base))*8 || seen[r] {
 			return nil
 		}
 		seen[r] = true
